@@ -109,6 +109,23 @@ func genC10(t *rapid.T) CaseC10 {
 	if rapid.IntRange(0, 5).Draw(t, "late-sibling-history") == 0 {
 		// k descriptors on k different signal times, then a late sibling on one of the earlier signal times, processed twice in
 		// a row (a tracker that remembers a bounded number of signal times is exercised at and around its bound), then anything
+		if rapid.IntRange(0, 2).Draw(t, "late-diff-pts-family") == 0 {
+			// the same over the types whose closing rule compares signal times (0x34 / 0x36 / 0x44 close 0x30 / 0x3C / 0x44 of
+			// another signal time): a few of them open on two or three signal times, event ids from a set of two, then a late one
+			k := rapid.IntRange(2, 5).Draw(t, "dfam-n")
+			var ops []OpC10
+			for i := 0; i < k; i++ {
+				ops = append(ops, OpC10{Kind: "process", Type: rapid.SampledFrom([]byte{0x30, 0x44, 0x3C, 0x30, 0x44}).Draw(t, "dfam-type"),
+					Event: uint32(rapid.IntRange(1, 2).Draw(t, "dfam-event")), SamePTS: i > 0 && rapid.Bool().Draw(t, "dfam-same")})
+			}
+			ops = append(ops, OpC10{Kind: "process", Type: rapid.SampledFrom([]byte{0x34, 0x36, 0x44, 0x44}).Draw(t, "dfam-late-type"),
+				Event: uint32(rapid.IntRange(1, 3).Draw(t, "dfam-late-event")), OldPTS: rapid.IntRange(1, 3).Draw(t, "dfam-old")})
+			if rapid.Bool().Draw(t, "dfam-repeat") {
+				ops = append(ops, OpC10{Kind: "reprocess"})
+			}
+			ops = append(ops, rapid.SliceOfN(rapid.Custom(genC10Op), 0, 4).Draw(t, "dfam-tail")...)
+			return CaseC10{Ops: ops}
+		}
 		k := rapid.IntRange(2, 14).Draw(t, "distinct-times")
 		var ops []OpC10
 		for i := 0; i < k; i++ {
@@ -558,7 +575,7 @@ func checkC10(c CaseC10, x *hx.Ctx) (fail *hx.Failure) {
 var propC10 = hx.Register(hx.Prop[CaseC10]{ID: "C10", Gen: genC10, Check: checkC10})
 
 func c10Rule() {
-	hx.Rec("C10").SetRule("cases: histories of 1..40 calls on one tracker: process(new descriptor: type from a 26-type alphabet covering every rule kind plus two types without rules, weighted towards breakaway/resumption/network/unscheduled; event id 1..3; segment number/expected 0..2; sub-segment fields on 0x34/0x36; half of the 0x40 descriptors (and 1 in 16 of the others) carry a stream-switch-shaped multiple-UPID list in one of five shapes with signal id 0..2; one descriptor in eight reaches the tracker inside a decorator type; one API-built descriptor in eight has the cancel indicator set; one signal in four gets part of its time from pts_adjustment; attached to a signal whose PTS repeats the previous one (<= 5 per PTS; API-built ones then share ONE signal object, as the descriptors of one decoded section do) or advances; built through the API or by decoding a reference encoding), process(the same object again immediately), process(an object that is still open, any number of calls later), process(descriptor whose signal has no PTS: splice_null, immediate or cancelled splice_insert, time-less time_signal, or a descriptor no signal owns), close(a previously seen descriptor, biased to recent ones, or a fresh one), open(). Oracle: invariants over the observable history by object identity, checked after EVERY call (a second tracker holding one open program sits next to it and must not notice): Open() contains only successfully processed, not yet closed, not discarded, distinct descriptors in opening order; every closed descriptor was open, never closed before, closable under the transcribed rule table and the library's own CanClose (or equal, for explicit close), closed lists last-opened first; immediate re-processing => duplicate error and unchanged Open(); PTS-less => error, nothing closed, unchanged Open(); a recovered panic is a violation. Enumerated: all histories of length <= 4 over 9 descriptor kinds + 2 explicit closes. Non-trivial: the history contains a breakaway and, while it is pending, a descriptor that closes it, an explicit close, a second breakaway, a resumption, or an immediate re-processing.",
+	hx.Rec("C10").SetRule("cases: histories of 1..40 calls on one tracker: process(new descriptor: type from a 26-type alphabet covering every rule kind plus two types without rules, weighted towards breakaway/resumption/network/unscheduled; event id 1..3; segment number/expected 0..2; sub-segment fields on 0x34/0x36; half of the 0x40 descriptors (and 1 in 16 of the others) carry a stream-switch-shaped multiple-UPID list in one of five shapes with signal id 0..2; one descriptor in eight reaches the tracker inside a decorator type; one API-built descriptor in eight has the cancel indicator set; one signal in four gets part of its time from pts_adjustment; attached to a signal whose PTS repeats the previous one (<= 5 per PTS; API-built ones then share ONE signal object, as the descriptors of one decoded section do) or advances, or (one process in ten, and in one history in six that is built as k distinct signal times + such a late sibling + the same object again) goes back to the signal time that was current 1..13 distinct signal times ago; built through the API or by decoding a reference encoding), process(the same object again immediately), process(an object that is still open, any number of calls later), process(descriptor whose signal has no PTS: splice_null, immediate or cancelled splice_insert, time-less time_signal, or a descriptor no signal owns), close(a previously seen descriptor, biased to recent ones, or a fresh one), open(). Oracle: invariants over the observable history by object identity, checked after EVERY call (a second tracker holding one open program sits next to it and must not notice): Open() contains only successfully processed, not yet closed, not discarded, distinct descriptors in opening order; every closed descriptor was open, never closed before, closable under the transcribed rule table and the library's own CanClose (or equal, for explicit close), closed lists last-opened first; immediate re-processing => duplicate error and unchanged Open(); PTS-less => error, nothing closed, unchanged Open(); a recovered panic is a violation. Enumerated: all histories of length <= 4 over 9 descriptor kinds + 2 explicit closes. Non-trivial: the history contains a breakaway and, while it is pending, a descriptor that closes it, an explicit close, a second breakaway, a resumption, or an immediate re-processing.",
 		"an object is re-submitted either immediately or while it is open (then it must not end up in the open list twice); re-submitting an object that was already reported closed is not generated (the statement does not say whether it may open again)",
 		"at most 5 descriptors per signal time in drawn histories, up to 26 in the enumerated ones; from the 6th on each ProcessDescriptor call may allocate at most 4 MiB",
 		"a breakaway counts as open although Open() hides it while the blackout lasts; descriptors that vanish from Open() at a resumption count as discarded")
